@@ -20,6 +20,10 @@ DISPATCH_VALUES = ["a", "b", "c", 1, 2, None]  # hashable; no two equal in Pytho
 TEMPLATES = ["{A}", "{B}", "p{S.X}q", "{S.Y}", "x{C}", "{M}", "{B}{C}"]
 
 
+PRESET_TEMPLATE_TARGETS = ["B", "C"]  # keys pre-set templates may refer to; they never hold templated values themselves
+PRESET_TEMPLATES = ["{B}", "{C}", "x{C}", "{B}{C}"]
+
+
 def canon(v):
     """Canonical JSON text of a JSON value (distinguishes True from 1)."""
     return json.dumps(v, sort_keys=True, separators=(",", ":"))
@@ -294,6 +298,11 @@ class DictGen:
             while not template_closed(o) and guard < 20:
                 guard += 1
                 self._close_or_strip(o)
+        if self.cfg.get("tmpl_preset"):
+            for k in PRESET_TEMPLATE_TARGETS:
+                ok, v = lookup(k, o)
+                if ok and isinstance(v, str) and template_refs(v):
+                    set_path(o, k, self.rng.choice(["a", "b", 1]))
         if not self.cfg.get("shape_change"):
             # no non-container value at a key the programs read through (open finding KF-scalar-at-section-prefix)
             for pfx, empty in (("S", {}), ("S.T", {}), ("L", [])):
